@@ -3,7 +3,8 @@
 Drives the real aiohttp.streams.StreamReader (with the real BaseProtocol flow-control code and an
 in-memory transport) and the extracted Coq model (coq/Model/Stream.v) with the same operation
 sequences, compares canonical observables after every operation, and evaluates the property
-itself (conservation, EOF last, chunk boundaries, pause/resume, no stuck pause) on the
+itself (conservation, EOF last, chunk boundaries, pause/resume, no stuck pause, no hang once an
+exception is set) on the
 implementation's output without consulting the model.
 
 Operation tokens (shared with ocaml/C08/driver.ml):
@@ -434,6 +435,8 @@ class Impl:
                 self._flag("resume", f"{tok} left {buffered} bytes buffered (< low water {low}) with the transport still paused")
         if self.coro is not None and name not in ("F", "B", "E", "Z", "X", "Q", "QE", "n", "s") and obs in ("B", "P"):
             blocked = self.fut is not None and not self.fut.done() if not self.use_tasks else True
+            if blocked and s.exception() is not None:
+                self._flag("exc_hang", f"after {tok} the reader is suspended waiting for data although an exception is set on the stream")
             if blocked and self.paused():
                 self._flag("not_stuck", f"after {tok} the reader is suspended waiting for data while the transport is paused "
                                         f"(limit={self.limit})")
